@@ -102,6 +102,18 @@ pub fn generate(run_seed: u64, tier: Tier) -> Scenario {
     for _ in 0..n {
         history.push(gen_history_op(&mut rng, big));
     }
+    // own sub-stream: 1 in 6 histories hold one message far larger than any read window (70-300 KB),
+    // so that some crash states have such a frame as a thread's last one
+    let mut huge = Rng::derive(run_seed, "huge-frame");
+    if huge.chance(1, 6) {
+        let idx: Vec<usize> = history.iter().enumerate().filter(|(_, o)| matches!(o, Op::AppendMessage { .. })).map(|(i, _)| i).collect();
+        if !idx.is_empty() {
+            let k = idx[huge.usize_below(idx.len())];
+            if let Op::AppendMessage { size, .. } = &mut history[k] {
+                *size = huge.range(70_000, 300_000) as u32;
+            }
+        }
+    }
     Scenario {
         sim_seed: crate::prng::mix_label(run_seed, "sim"),
         history,
@@ -733,7 +745,7 @@ impl Check for C05 {
         serde_json::to_value(sc).unwrap()
     }
     fn rule(&self) -> String {
-        "one run = one seeded history of 3-16 store operations (messages incl. frames larger than the 8 KiB writer buffer, full runs with compile/side-effects/cursor, runs with reply frames and a session snapshot, manual and automatic compaction, branch, handoff) executed once; EVERY mutating file-system effect boundary of the run (log, each sidecar and index, index.json tmp+rename, artifact tmp+rename) is a crash point: the captured on-disk state is restarted with a fresh EventLog+ContinuityStore, replayed, continued with further appends (1 in 8 histories first let another stream write 1.3 MB - a third of them 5.2 MB -, so the threads' tails are far from the end of the log; the default thread must be obtainable and accept a post - asked for first thing after the restart in half of the crash states, after the other appends in the other half) and judged (incl. C04's cache comparison once more on the continued store for the threads that were appended to); evaluations = crash states restarted; distinct = distinct abstract crash state (files per class, lines per class, torn-frame flag, next effect class); exhaustive within each history, sampled across histories".into()
+        "one run = one seeded history of 3-16 store operations (messages incl. frames larger than the 8 KiB writer buffer and, in 1 of 6 histories, one of 70-300 KB, full runs with compile/side-effects/cursor, runs with reply frames and a session snapshot, manual and automatic compaction, branch, handoff) executed once; EVERY mutating file-system effect boundary of the run (log, each sidecar and index, index.json tmp+rename, artifact tmp+rename) is a crash point: the captured on-disk state is restarted with a fresh EventLog+ContinuityStore, replayed, continued with further appends (1 in 8 histories first let another stream write 1.3 MB - a third of them 5.2 MB -, so the threads' tails are far from the end of the log; the default thread must be obtainable and accept a post - asked for first thing after the restart in half of the crash states, after the other appends in the other half) and judged (incl. C04's cache comparison once more on the continued store for the threads that were appended to); evaluations = crash states restarted; distinct = distinct abstract crash state (files per class, lines per class, torn-frame flag, next effect class); exhaustive within each history, sampled across histories".into()
     }
     fn assumptions(&self) -> Vec<String> {
         vec![
